@@ -292,7 +292,7 @@ def proof_side(pid, tier, fn_status=None):
     os.makedirs(os.path.join(jl.BUILD, "tmp"), exist_ok=True)
     af = os.path.join(jl.BUILD, "tmp", "audit_%s.lean" % pid)
     open(af, "w").write(AUDIT_TEMPLATE % dict(pid=pid, imports="\n".join("import " + m for m in modules_of(pid) + ["JL.Tie." + t for t in tie_built]),
-                                             audits="\n".join(["#audit_ns JL.Props." + n for n in PROP_NAMESPACES.get(pid, [pid])] + ["#audit_ns JL.Tie." + t for tb in tie_built for t in (["eager_table", "lazy_table", "data_table", "table_keys"] if tb == "tables" else [tb])])))
+                                             audits="\n".join(["#audit_ns JL.Props." + n for n in PROP_NAMESPACES.get(pid, [pid])] + (["#audit_ns JL.Tie"] if tie_built else []))))
     rc, out = jl.sh(["lake", "env", "lean", af], cwd=jl.LEAN, timeout=1800)
     for m in re.finditer(r"THEOREM (\S+) AXIOMS \[(.*?)\]", out):
         name = m.group(1)
